@@ -60,6 +60,7 @@ class MemberDispatcher:
         self.reset()
         self.violations = []
         self.pick_vectors = []
+        self.members = []
 
     def reset(self):
         self.audit = None
@@ -309,6 +310,7 @@ def run_system(text, ops_seed, sched_kwargs, n_generators=1, faults=None, props=
                     w = float("nan")
                 t["mass"] += w
                 t["members"].append((disp.component, w))
+                disp.members.append((disp.component, w))
                 if disp.first_dec is not None:
                     disp.pick_vectors.append((disp.first_dec["p"], disp.first_dec["i"], disp.component, w))
                 if not member.fully_generated:
@@ -324,9 +326,6 @@ def run_system(text, ops_seed, sched_kwargs, n_generators=1, faults=None, props=
                         v2["property"] = "C13"
                         v2["features"] = ["inner=" + v["property"] + "/" + v["invariant"]]
                         viols.append(v2)
-                    if disp.first_dec is not None and disp.first_dec["i"] != disp.component and len(ast.mols) > 1:
-                        viols.append({"property": "C13", "invariant": "picked_component_not_generated",
-                                      "msg": f"component {disp.first_dec['i']} was picked but component {disp.component} was generated", "features": []})
                 world.event({"k": "op", "op": "yield", "g": gi, "component": disp.component, "w": w, "cum": t["mass"]})
                 # the parsed system must be unchanged by anything that happened
             if str(system) != str0 or system.generable != generable0:
@@ -372,4 +371,4 @@ def run_system(text, ops_seed, sched_kwargs, n_generators=1, faults=None, props=
         signal.alarm(0)
         signal.signal(signal.SIGALRM, old)
     return {"violations": viols, "stats": stats, "digest": world.digest(), "trace": list(sched.trace), "histories": histories,
-            "fractions": fractions, "system_mass": M_sys, "picks": picks, "n_events": len(world.log), "ast": ast}
+            "fractions": fractions, "system_mass": M_sys, "picks": picks, "members": list(disp.members), "n_events": len(world.log), "ast": ast}
